@@ -422,8 +422,37 @@ structure Inp where
   parsed : Option Expr
   /-- outcome of `json.loads` / `ast.literal_eval` on the transform pathway (`none`: both refused) -/
   beta : Option Val
-  /-- printing `expression[:50]` to the console raises (lone surrogate on a UTF-8 console) -/
+  /-- the console write of the progress line raises: a lone surrogate in `expression[:50]` on a UTF-8 console, or a
+      console that refuses the write itself (`Console.print`: closed stream, an encoding that cannot represent the
+      line's emoji, a stream whose k-th write fails) -/
   printRaises : Bool
+
+/-- `sys.stdout` as far as the progress line of a non-silent engine can tell. -/
+inductive Console where
+  /-- a UTF-8 text stream: refuses lone surrogates only -/
+  | utf8
+  /-- a closed stream: every write raises `ValueError` -/
+  | closed
+  /-- a strict ASCII / latin-1 / cp1252 stream: the emoji of the progress line cannot be encoded (`UnicodeEncodeError`) -/
+  | narrow
+  /-- a narrow encoding with `errors='replace'` / `'backslashreplace'`: every write is accepted -/
+  | lossy
+  /-- a stream whose `k`-th write (counted from 1 over the stream's life) raises `OSError`; all others are accepted -/
+  | failAt (k : Nat)
+  deriving DecidableEq, Repr
+
+/-- One `print(line)` = two writes (the text, then the newline).  `written` = writes the stream has seen so far,
+    `surrogate` = the text holds a lone surrogate.  Result: (the print raises, writes seen afterwards). -/
+def Console.print (c : Console) (written : Nat) (surrogate : Bool) : Bool × Nat :=
+  match c with
+  | .utf8 => if surrogate then (true, written) else (false, written + 2)
+  | .closed => (true, written)
+  | .narrow => (true, written)
+  | .lossy => (false, written + 2)
+  | .failAt k =>
+    if written + 1 = k then (true, written + 1)
+    else if written + 2 = k then (true, written + 2)
+    else (false, written + 2)
 
 inductive Outcome where
   /-- a `MetabolicResult`; `rosInc` = the error counter was incremented; `path` = `result.pathway` -/
@@ -463,6 +492,30 @@ def metabolize (T : Tables) (env : Env) (cfg : Cfg) (latched : Bool) (detect : P
         if cfg.timeoutZero then (t, if cfg.dispatchInTry then .result false none true (some p) else .raised)
         else (t, .result true (some v) false (some p))
       | (t, .error _) => (t, if cfg.dispatchInTry then .result false none true (some p) else .raised)
+
+/-- the progress line is reached: the call passed both guards on a non-silent engine -/
+def printReached (cfg : Cfg) (latched : Bool) (len : Nat) : Bool := !(len > cfg.maxLen) && !latched && !cfg.silent
+
+/-- What the console makes of one call: (`printRaises` of the call, writes the stream has seen after the call).  A call
+    that does not reach the progress line writes nothing. -/
+def consoleStep (cfg : Cfg) (latched : Bool) (c : Console) (written : Nat) (len : Nat) (surrogate : Bool) : Bool × Nat :=
+  if printReached cfg latched len then c.print written surrogate else (surrogate, written)
+
+/-- `metabolize` on a console: the console decides `printRaises`; second component = writes the stream has seen after
+    the call. -/
+def metabolizeOn (T : Tables) (env : Env) (cfg : Cfg) (latched : Bool) (detect : Pathway) (c : Console) (written : Nat)
+    (inp : Inp) (forced : Option Pathway) : (List Act × Outcome) × Nat :=
+  let rw := consoleStep cfg latched c written inp.len inp.printRaises
+  (metabolize T env cfg latched detect ⟨inp.len, inp.parsed, inp.beta, rw.1⟩ forced, rw.2)
+
+/-- A history of calls on ONE engine and ONE console stream (the stream's write count runs through the history).  The
+    error counter is the environment's here (`latched i` = the engine is latched at call `i`). -/
+def historyOn (T : Tables) (env : Env) (cfg : Cfg) (detect : Inp → Pathway) (c : Console) :
+    Nat → List (Bool × Inp × Option Pathway) → List Outcome
+  | _, [] => []
+  | written, (latched, inp, forced) :: rest =>
+    let r := metabolizeOn T env cfg latched (detect inp) c written inp forced
+    r.1.2 :: historyOn T env cfg detect c r.2 rest
 
 /-- outcome of the legacy entry point: a string (the rendered value, or a "Metabolic Failure: …" text), or a raise -/
 inductive LegacyOutcome where
